@@ -12,10 +12,24 @@
     decoders ([dec_def]: job definition -> (ABI string, contract address string); [dec_pay]:
     payload -> hexPayload string) are PARAMETERS of the model, nothing is assumed about them.
     What the EVM keeper does with the decoded strings (hex validation, common.FromHex, the 32-byte
-    sender suffix) is modelled exactly.  Relayer selection (C14) and the just-in-time valset update
-    of PreJobExecution (C10) are inputs of the execute operation: [x_pick] is the observed result of
-    PickValidatorForMessage (Some assignee | None = error), [x_pre] says whether the hook put a
-    valset update into the chain's queue. *)
+    sender suffix) is modelled exactly.  Relayer selection (C14) is an input of the execute
+    operation: [x_pick] is the observed result of PickValidatorForMessage (Some assignee | None =
+    error).  The just-in-time valset update of PreJobExecution is modelled from the point where it
+    calls msgSender.SendValsetMsgForChain: [x_pre = Some vid] says that the hook got that far (chain
+    known and active, a current snapshot with id [vid] that is not the one published on the chain,
+    enough power, a relayer picked -- valset / C10 / C14 facts, inputs); what SendValsetMsgForChain
+    then does to the chain's turnstone queue (stop at a foreign turnstone id, stop at an update with
+    the same valset id, delete every other update, append the new one) is modelled exactly
+    ([send_valset]).  [queue] is the LIVE content of the turnstone queues of all chains in the order
+    of the consensus keeper's global message counter.
+
+    Entry points (the translator pins that there are no others, Gen.C17.entry_points): the msg
+    server ([OCreate] with owner = creator, [OMsgExec]), the wasm bindings behind the libwasm router
+    ([OCreate] with owner = contract, [OWasmExec], [OLegacyExec]), keeper-level calls ([OExec]: no
+    caller outside these files).  Environment: [OPublish] (the snapshot listener's
+    PublishValsetToChain, the other caller of SendValsetMsgForChain), [OGenesisRoundTrip]
+    (scheduler ExportGenesis ; empty store ; InitGenesis: the genesis state carries no jobs),
+    [OBlock] (scheduler Begin/EndBlocker: empty bodies). *)
 From Coq Require Import List ZArith Bool Lia.
 From Paloma Require Import Base.Corr.
 From Paloma Require Gen.C17.
@@ -119,13 +133,42 @@ Record call := mkCall {
 }.
 
 Inductive qmsg :=
-| QValset (chain : bytes)       (* a validator-set update for that chain *)
+| QValset (chain ts : bytes) (vid : Z)  (* a validator-set update in that chain's queue: Message.TurnstoneID, Valset.ValsetID *)
 | QCall (c : call).
+
+Definition q_chain (m : qmsg) : bytes := match m with QValset c _ _ => c | QCall c => c_chain c end.
+Definition q_ts (m : qmsg) : bytes := match m with QValset _ t _ => t | QCall c => c_turnstone c end.
+Definition is_valset_of (c : bytes) (m : qmsg) : bool :=
+  match m with QValset c' _ _ => bytes_eqb c' c | QCall _ => false end.
+Definition is_valset_vid (c : bytes) (v : Z) (m : qmsg) : bool :=
+  match m with QValset c' _ v' => bytes_eqb c' c && (v' =? v) | QCall _ => false end.
+(** the queue without the valset updates of chain [c]; whether an update of [c] with id [v] is queued *)
+Definition drop_valsets (c : bytes) (q : list qmsg) : list qmsg := filter (fun m => negb (is_valset_of c m)) q.
+Definition has_valset (c : bytes) (v : Z) (q : list qmsg) : bool := existsb (is_valset_vid c v) q.
+
+(** msgSender.SendValsetMsgForChain(chainInfo, valset): walk the messages of the chain's queue,
+    oldest first.  A message with another turnstone id: return nil (nothing is appended; deletions
+    made so far stay).  An UpdateValset with the same valset id: return nil.  Any other
+    UpdateValset: DeleteJob.  Other messages are skipped.  After the loop the new update is put.
+    The boolean of [send_scan] says whether the loop ran to its end. *)
+Fixpoint send_scan (c ts : bytes) (v : Z) (q : list qmsg) : list qmsg * bool :=
+  match q with
+  | [] => ([], true)
+  | m :: r =>
+      if negb (bytes_eqb (q_chain m) c) then let (r', b) := send_scan c ts v r in (m :: r', b)
+      else if negb (bytes_eqb (q_ts m) ts) then (m :: r, false)
+      else match m with
+           | QValset _ _ v' => if v' =? v then (m :: r, false) else send_scan c ts v r
+           | QCall _ => let (r', b) := send_scan c ts v r in (m :: r', b)
+           end
+  end.
+Definition send_valset (c ts : bytes) (v : Z) (q : list qmsg) : list qmsg :=
+  let (q', b) := send_scan c ts v q in if b then q' ++ [QValset c ts v] else q'.
 
 Record state := mkState {
   chains : list (bytes * bytes);   (* registered EVM chains: reference id -> smart contract unique id *)
   jobs : list job;                 (* job store, in creation order *)
-  queue : list qmsg                (* everything ever put into turnstone queues, oldest first *)
+  queue : list qmsg                (* live content of the turnstone queues, oldest first *)
 }.
 
 Definition init (chs : list (bytes * bytes)) : state := mkState chs [] [].
@@ -133,7 +176,9 @@ Definition init (chs : list (bytes * bytes)) : state := mkState chs [] [].
 Inductive err :=
 | ERejected       (* creation refused: duplicate id, empty owner, ValidateBasic, unsupported chain type, VerifyJob *)
 | ENotFound | ECannotModify | EBadJSON | EBadHex | ENoChain | EPad | EPick
-| EWasmInvalid.   (* bindings: empty job id / empty payload *)
+| EWasmInvalid    (* bindings: empty job id / empty payload *)
+| EUnauthorised   (* MsgExecuteJob refused before the handler: ValidateBasic / VerifyAuthorisedSignatureDecorator *)
+| EPanic.         (* msg server: GetAccount(creator) is nil and is dereferenced *)
 
 Inductive result := Ok | Err (e : err).
 
@@ -141,7 +186,7 @@ Definition err_eqb (a b : err) : bool :=
   match a, b with
   | ERejected, ERejected | ENotFound, ENotFound | ECannotModify, ECannotModify
   | EBadJSON, EBadJSON | EBadHex, EBadHex | ENoChain, ENoChain | EPad, EPad | EPick, EPick
-  | EWasmInvalid, EWasmInvalid => true
+  | EWasmInvalid, EWasmInvalid | EUnauthorised, EUnauthorised | EPanic, EPanic => true
   | _, _ => false
   end.
 Definition result_eqb (a b : result) : bool :=
@@ -168,16 +213,26 @@ Record exec_in := mkExec {
   x_in : option bytes;         (* supplied payload; None = nil *)
   x_sender : option bytes;     (* senderAddress; None = nil *)
   x_contract : option bytes;   (* contractAddr; None = nil *)
-  x_pre : bool;                (* PreJobExecution enqueued a valset update for the job's chain *)
+  x_pre : option Z;            (* PreJobExecution reaches SendValsetMsgForChain with this valset id (None: it stops before) *)
   x_pick : option Z;           (* PickValidatorForMessage: Some assignee | None (error) *)
   x_atomic : bool              (* delivered as a transaction / sub-message: state kept only on success *)
 }.
 
 Inductive op :=
 | OCreate (j : job) (vb : bool)   (* j carries the owner (= creator); vb = Job.ValidateBasic() passed *)
-| OExec (x : exec_in)             (* keeper ExecuteJob (msg server: sender = creator account, contract = nil) *)
-| OWasmExec (id raw : bytes) (caddr : bytes) (pre : bool) (pick : option Z) (atomic : bool)  (* bindings executeJob *)
-| OLegacyExec (id raw : bytes) (caddr : bytes) (pre : bool) (pick : option Z) (atomic : bool). (* legacy messenger *)
+| OExec (x : exec_in)             (* keeper ExecuteJob called directly (no such caller outside the entry points below) *)
+  (* MsgExecuteJob delivered as a transaction message: [creator] = Metadata.Creator, [authorised] =
+     ValidateBasic and the ante decorator let it through (creator among the signers, or a signer
+     holds a fee grant of the creator: property C03), [has_acct] = the creator has an account *)
+| OMsgExec (creator : bytes) (authorised has_acct : bool) (id : bytes) (inp : option bytes)
+           (pre : option Z) (pick : option Z) (atomic : bool)
+  (* contract [caddr] dispatches {"scheduler_msg":{"execute_job":{job_id, sender: claimed, payload: raw}}} *)
+| OWasmExec (id raw : bytes) (caddr claimed : bytes) (pre : option Z) (pick : option Z) (atomic : bool)
+  (* contract [caddr] dispatches the legacy message {job_id, payload: raw} (+ any other members, e.g. a sender) *)
+| OLegacyExec (id raw : bytes) (caddr claimed : bytes) (pre : option Z) (pick : option Z) (atomic : bool)
+| OPublish (chain : bytes) (pre : option Z)   (* snapshot listener: PublishValsetToChain reaches SendValsetMsgForChain or not *)
+| OGenesisRoundTrip                           (* scheduler ExportGenesis ; empty scheduler store ; InitGenesis *)
+| OBlock.                                     (* scheduler BeginBlocker ; EndBlocker *)
 
 Section Model.
   Variable dec_def : bytes -> option (bytes * bytes).   (* definition JSON -> (ABI, address) *)
@@ -201,6 +256,13 @@ Section Model.
 
   Definition enqueue (s : state) (m : qmsg) : state := mkState (chains s) (jobs s) (queue s ++ [m]).
 
+  (** evm PreJobExecution / PublishValsetToChain for chain [c]: GetChainInfo, ..., SendValsetMsgForChain *)
+  Definition hook (s : state) (c : bytes) (pre : option Z) : state :=
+    match pre, chain_info (chains s) c with
+    | Some v, Some ts => mkState (chains s) (jobs s) (send_valset c ts v (queue s))
+    | _, _ => s
+    end.
+
   (** the address whose bytes become the suffix: the sender if present, else the contract *)
   Definition caller_of (sender contract : option bytes) : bytes :=
     match sender with
@@ -219,7 +281,7 @@ Section Model.
     match job_at s (x_id x) with
     | None => (s, Err ENotFound)
     | Some j =>
-      let s1 := if x_pre x then enqueue s (QValset (j_cref j)) else s in
+      let s1 := hook s (j_cref j) (x_pre x) in
       if nonempty (x_in x) && negb (j_modifiable j) then (s1, Err ECannotModify) else
       let base := base_payload j (x_in x) in
       match dec_def (j_def j) with
@@ -258,8 +320,17 @@ Section Model.
     | (s', Err e) => (if x_atomic x then s else s', Err e)
     end.
 
-  (** customMessenger.executeJob *)
-  Definition wasm_exec (s : state) (id raw caddr : bytes) (pre : bool) (pick : option Z) (atomic : bool) : state * result :=
+  (** msgServer.ExecuteJob behind ValidateBasic and the ante handler: sender = the creator's
+      account address, contract = nil.  GetAccount(creator).GetAddress() panics on a missing
+      account before anything is read or written. *)
+  Definition msg_exec (s : state) (creator : bytes) (authorised has_acct : bool) (id : bytes) (inp : option bytes)
+             (pre : option Z) (pick : option Z) (atomic : bool) : state * result :=
+    if negb authorised then (s, Err EUnauthorised)
+    else if negb has_acct then (s, Err EPanic)
+    else exec s (mkExec id inp (Some creator) None pre pick atomic).
+
+  (** customMessenger.executeJob: the message's own "sender" member is not read *)
+  Definition wasm_exec (s : state) (id raw caddr : bytes) (pre : option Z) (pick : option Z) (atomic : bool) : state * result :=
     match id, raw with
     | [], _ | _, [] => (s, Err EWasmInvalid)
     | _, _ => exec s (mkExec id (Some (wasm_wrap raw)) (Some caddr) (Some caddr) pre pick atomic)
@@ -267,7 +338,7 @@ Section Model.
 
   (** customLegacyMessenger.DispatchMsg: the payload is wrapped BEFORE executeJobWasmEvent.valid()
       looks at it, so only an empty job id is refused there *)
-  Definition legacy_exec (s : state) (id raw caddr : bytes) (pre : bool) (pick : option Z) (atomic : bool) : state * result :=
+  Definition legacy_exec (s : state) (id raw caddr : bytes) (pre : option Z) (pick : option Z) (atomic : bool) : state * result :=
     match id with
     | [] => (s, Err EWasmInvalid)
     | _ => exec s (mkExec id (Some (wasm_wrap raw)) (Some caddr) (Some caddr) pre pick atomic)
@@ -277,8 +348,12 @@ Section Model.
     match o with
     | OCreate j vb => create s j vb
     | OExec x => exec s x
-    | OWasmExec id raw caddr pre pick atm => wasm_exec s id raw caddr pre pick atm
-    | OLegacyExec id raw caddr pre pick atm => legacy_exec s id raw caddr pre pick atm
+    | OMsgExec cr au ac id inp pre pick atm => msg_exec s cr au ac id inp pre pick atm
+    | OWasmExec id raw caddr _ pre pick atm => wasm_exec s id raw caddr pre pick atm
+    | OLegacyExec id raw caddr _ pre pick atm => legacy_exec s id raw caddr pre pick atm
+    | OPublish c pre => (hook s c pre, Ok)
+    | OGenesisRoundTrip => (mkState (chains s) [] (queue s), Ok)
+    | OBlock => (s, Ok)
     end.
 
   Definition step (s : state) (o : op) : state := fst (step_res s o).
@@ -291,5 +366,5 @@ Fixpoint calls_of (q : list qmsg) : list call :=
   match q with
   | [] => []
   | QCall c :: r => c :: calls_of r
-  | QValset _ :: r => calls_of r
+  | QValset _ _ _ :: r => calls_of r
   end.
